@@ -500,20 +500,20 @@ Section ANYORDER.
   (* makeObject + buildResObj invert the serialisation whatever the order in which the (path, text)
      pairs arrive (Go iterates a map) *)
   Theorem make_object_roundtrip_any_order : forall s ms p l',
-    names_ok s = true -> no_ap s = true -> wfv (VObj ms) -> texts_ok (ser [] (VObj ms)) = true ->
+    names_ok s = true -> no_ap s = true -> wfv (VObj ms) -> nek (VObj ms) -> texts_ok (ser [] (VObj ms)) = true ->
     reading parse_int64 parse_int32 parse_float s (VObj ms) = Some p ->
     Permutation (ser [] (VObj ms)) l' ->
     exists tree, mk_tree l' = Some tree /\
                  build parse_int64 parse_int32 parse_float atoi tree s [] "" = BOk p.
   Proof.
-    intros s ms p l' Hn Hap Hw Ht Hr Hp.
+    intros s ms p l' Hn Hap Hw Hne Ht Hr Hp.
     exists (fold_set [] l'). split.
     - unfold mk_tree. apply mk_tree_fold. now rewrite <- (texts_ok_perm _ _ Hp).
     - assert (Hk : kperm (fold_set [] (ser [] (VObj ms))) (fold_set [] l')).
       { apply fold_set_perm; [exact Hp|apply fop_pairwise; now apply ser_fop|split; [constructor|exact I]]. }
       rewrite <- (build_kperm parse_int64 parse_int32 parse_float atoi s Hap _ _ [] "" Hk).
       + pose proof (fold_set_ser (VObj ms) Hw) as Hf. cbn [kids_of] in Hf. rewrite Hf, tree_of_obj. cbn [kids_of].
-        apply (build_reading parse_int64 parse_int32 parse_float atoi atoi_itoa s Hn (VObj ms) p (obj_kids ms) [] ""); [reflexivity|exact Hr].
+        apply (build_reading parse_int64 parse_int32 parse_float atoi atoi_itoa s Hn (VObj ms) p (obj_kids ms) [] "" Hw Hne); [reflexivity|exact Hr].
       + apply fold_set_nd. split; [constructor|exact I].
   Qed.
 End ANYORDER.
@@ -529,12 +529,12 @@ Section DECODEANY.
   (* the deepObject decoder inverts the deepObject serialisation, whatever the order of the query keys *)
   Theorem deep_decode_roundtrip_any_order : forall name s ms p q',
     no_byte "["%char name = true -> names_ok s = true -> no_ap s = true ->
-    wfv (VObj ms) -> keys_ok (VObj ms) -> texts_ok (ser [] (VObj ms)) = true ->
+    wfv (VObj ms) -> nek (VObj ms) -> keys_ok (VObj ms) -> texts_ok (ser [] (VObj ms)) = true ->
     reading parse_int64 parse_int32 parse_float s (VObj ms) = Some p ->
     Permutation (query_of name (ser [] (VObj ms))) q' ->
     exists found, deep_decode parse_int64 parse_int32 parse_float atoi name s q' = DRes p found None.
   Proof.
-    intros name s ms p q' Hname Hn Hap Hw Hk Ht Hr Hp.
+    intros name s ms p q' Hname Hn Hap Hw Hne Hk Ht Hr Hp.
     assert (Hpaths : Forall (fun pt : list string * string => fst pt <> [] /\ Forall (fun k => no_byte "]"%char k = true) (fst pt)) (ser [] (VObj ms))).
     { pose proof (ser_paths_deeper (VObj ms) name I) as H1. pose proof (ser_paths_ok (VObj ms) [] Hk (Forall_nil _)) as H2.
       rewrite Forall_forall in *. intros pt Hin. split.
@@ -542,13 +542,13 @@ Section DECODEANY.
       - apply (H2 pt Hin). }
     assert (Hprops : Permutation (ser [] (VObj ms)) (deep_props name q')).
     { rewrite <- (deep_props_query_of name _ Hname Hpaths) at 1. unfold deep_props. now apply Permutation_flat_map. }
-    destruct (make_object_roundtrip_any_order parse_int64 parse_int32 parse_float atoi atoi_itoa s ms p _ Hn Hap Hw Ht Hr Hprops) as (tree & Hm & Hb).
+    destruct (make_object_roundtrip_any_order parse_int64 parse_int32 parse_float atoi atoi_itoa s ms p _ Hn Hap Hw Hne Ht Hr Hprops) as (tree & Hm & Hb).
     unfold deep_decode.
     destruct (deep_props name q') as [|pt rest] eqn:Ep.
     { exfalso. apply Permutation_sym, Permutation_nil in Hprops. apply (ser_nonempty (VObj ms) [] Hw Hprops). }
     rewrite Hm, Hb.
     assert (Hpo : exists m, p = PO m).
-    { destruct s as [c|it|decl [a|]]; cbn [reading] in Hr; try discriminate.
+    { destruct s as [c|it|decl [a|]]; cbn [no_ap] in Hap; rewrite ?andb_false_r in Hap; try discriminate Hap; cbn [reading] in Hr; try discriminate.
       destruct (obj_loop _ decl []) as [m|]; cbn in Hr; [|discriminate]. inversion Hr. eauto. }
     destruct Hpo as [m ->]. eexists. reflexivity.
   Qed.
